@@ -105,15 +105,32 @@ func verifC12Plan() planstypes.Plan {
 		PlanPolicy: planstypes.Policy{TotalCuLimit: verifC12PlanCu, EpochCuLimit: 100, MaxProvidersToPair: 2}}
 }
 
+const (
+	verifC12GoldPrice = 250
+	verifC12GoldCu    = 5000
+)
+
+func verifC12Gold() planstypes.Plan {
+	return planstypes.Plan{Index: "gold", Block: 60, Price: sdk.NewCoin("ulava", math.NewInt(verifC12GoldPrice)), AnnualDiscountPercentage: 20,
+		PlanPolicy: planstypes.Policy{TotalCuLimit: verifC12GoldCu, EpochCuLimit: 100, MaxProvidersToPair: 2}}
+}
+
 func (p *verifC12Plans) GetPlan(ctx sdk.Context, index string) (planstypes.Plan, bool) {
-	if index != "plan" {
-		return planstypes.Plan{}, false
+	switch index {
+	case "plan":
+		p.refs++
+		return verifC12Plan(), true
+	case "gold":
+		p.refs++
+		return verifC12Gold(), true
 	}
-	p.refs++
-	return verifC12Plan(), true
+	return planstypes.Plan{}, false
 }
 
 func (p *verifC12Plans) FindPlan(ctx sdk.Context, index string, block uint64) (planstypes.Plan, bool) {
+	if index == "gold" {
+		return verifC12Gold(), block == 60
+	}
 	return verifC12Plan(), index == "plan" && block == 50
 }
 func (p *verifC12Plans) PutPlan(ctx sdk.Context, index string, block uint64) { p.refs-- }
@@ -197,8 +214,9 @@ func (w *verifC12World) nextEpoch() {
 	w.k.subsTS.Tick(w.ctx)
 }
 
-// VerifC12Lifetime: a consumer buys the plan for 1..3 months, may extend it by 1 or 2 months in any later month, and
-// uses an arbitrary amount of CU every month.  The subscription stays active through exactly as many monthly expiries as
+// VerifC12Lifetime: a consumer buys the plan for 1..3 months, may extend it by 1 or 2 months in any later month or upgrade
+// it to the dearer gold plan for 1 or 2 months (in the block of the buy or in any later month), and uses an arbitrary
+// amount of CU every month.  The subscription stays active through exactly as many monthly expiries as
 // months were bought and then disappears together with its project; while active its remaining
 // monthly CU is within [0, monthly total] and is reset to the plan total at each month boundary; the consumer is charged
 // exactly price x months for every purchase.
@@ -207,14 +225,30 @@ func VerifC12Lifetime() {
 	w := verifC12NewWorld(balance)
 	k := w.k
 	months := uint64(verif_nondet_range("buy.months", 1, 3))
-	verif_assume(balance.GTE(math.NewInt(verifC12Price * 8)))
+	verif_assume(balance.GTE(math.NewInt(verifC12Price * 12)))
 	err := k.CreateSubscription(w.ctx, w.consumer, w.consumer, "plan", months, false)
 	verif_assert("purchase-accepted", err == nil)
 	paid := math.NewInt(verifC12Price * int64(months))
 	verif_assert("charged-price-times-months", w.bank.get(w.acct).Equal(balance.Sub(paid)) && w.bank.get(types.ModuleName).Equal(paid))
 	bought := months
 	maxMonths := verif_param("max_months", 4)
-	extended := false
+	extended, upgraded := false, false
+	planCu := uint64(verifC12PlanCu)
+	// an upgrade to the gold plan replaces the remaining months with the newly bought ones, from the upgrade on
+	upgrade := func(monthsPassed uint64) {
+		u := uint64(verif_nondet_range("upgrade.months", 1, 2))
+		before := w.bank.get(w.acct)
+		uerr := k.CreateSubscription(w.ctx, w.consumer, w.consumer, "gold", u, false)
+		verif_assert("upgrade-accepted", uerr == nil)
+		verif_assert("upgrade-charged-new-price-times-months", w.bank.get(w.acct).Equal(before.Sub(math.NewInt(verifC12GoldPrice*int64(u)))))
+		paid = paid.Add(math.NewInt(verifC12GoldPrice * int64(u)))
+		bought = monthsPassed + u
+		planCu = verifC12GoldCu
+		extended, upgraded = true, true
+	}
+	if verif_param("upgrades", 1) == 1 && verif_nondet_bool("upgradeInTheBlockOfTheBuy") {
+		upgrade(0)
+	}
 	for m := 1; m <= maxMonths+1; m++ {
 		w.nextEpoch()
 		sub, found := k.GetSubscription(w.ctx, w.consumer)
@@ -231,8 +265,18 @@ func VerifC12Lifetime() {
 		if !found {
 			return
 		}
-		verif_assert("monthly-cu-reset-to-the-plan-total", sub.MonthCuLeft == verifC12PlanCu && sub.MonthCuTotal == verifC12PlanCu)
+		verif_assert("monthly-cu-reset-to-the-plan-total", sub.MonthCuLeft == planCu && sub.MonthCuTotal == planCu)
 		verif_assert("months-left-as-bought", sub.DurationLeft == bought-uint64(m)+1)
+		// an upgrade in this month (instead of an extension): in effect from the next epoch, and the month restarts there
+		if !extended && verif_param("upgrades", 1) == 1 && verif_nondet_bool("upgradeThisMonth") {
+			upgrade(uint64(m - 1))
+			w.nextEpoch()
+			sub, found = k.GetSubscription(w.ctx, w.consumer)
+			verif_assert("upgraded-subscription-in-effect-at-the-next-epoch", found && sub.PlanIndex == "gold" && sub.MonthCuLeft == planCu && sub.MonthCuTotal == planCu && sub.DurationLeft == bought-uint64(m)+1)
+			if !found {
+				return
+			}
+		}
 		// an extension in this month (at most once per history, so that the history ends within the explored months)
 		if !extended && bought < uint64(maxMonths) {
 			if ext := uint64(verif_nondet_range("extend.months", 0, 2)); ext > 0 && bought+ext <= uint64(maxMonths) {
@@ -250,8 +294,8 @@ func VerifC12Lifetime() {
 		after, cerr := k.ChargeComputeUnitsToSubscription(w.ctx, w.consumer, uint64(w.height), cu)
 		verif_assert("usage-charged", cerr == nil)
 		want := uint64(0)
-		if cu < verifC12PlanCu {
-			want = verifC12PlanCu - cu
+		if cu < planCu {
+			want = planCu - cu
 		}
 		verif_assert("remaining-cu-never-negative-never-above-total", after.MonthCuLeft == want && after.MonthCuLeft <= after.MonthCuTotal)
 		sub, _ = k.GetSubscription(w.ctx, w.consumer)
@@ -259,8 +303,11 @@ func VerifC12Lifetime() {
 		w.monthBoundary(sub.MonthExpiryTime)
 	}
 	verif_assert("total-charged-is-price-times-all-months-bought", w.bank.get(types.ModuleName).Equal(paid))
-	if extended {
+	if extended && !upgraded {
 		verif_reach("extended")
+	}
+	if upgraded {
+		verif_reach("upgraded")
 	}
 	verif_reach("end")
 }
